@@ -661,8 +661,16 @@ def loops(ctx, cone):
             nfree += 1
             v = C10.variant(b, lp)
             v2 = counting_variant(b, lp)
-            if v is None and not v2:
-                v = C10.semantic_variant(ctx, b, lp)
+            if (v is None or v[0] != "ok") and not v2:
+                vs = C10.semantic_variant(ctx, b, lp)
+                if vs is None or vs[0] != "ok":
+                    # a loop in a private helper advancing by a parameter: judged from every caller inside the cone
+                    callers = [facts.bodies[c] for c in sorted(cone) if c != k and not facts.bodies[c]["glue"] and any(
+                        blk["term"]["k"] == "call" and F.callee_name(blk["term"]) == k for blk in facts.bodies[c]["blocks"])]
+                    res = [C10.semantic_variant(ctx, b, lp, entry=cb_) for cb_ in callers]
+                    if callers and all(r is not None and r[0] == "ok" for r in res):
+                        vs = res[0]
+                v = vs if vs is not None else v
             inst = "fn=%s" % (b["name"] or facts.bodies[k.split("::{closure")[0]]["name"])
             if (v and v[0] == "ok") or v2 or (v and v[0] == "bad" and callers_pass_positive(ctx, cone, k, b, lp)):
                 ck.ok("C19.loops", inst)
